@@ -48,12 +48,15 @@ def generate(rng, tier):
             ncol = 0 if rng.random() < 0.06 else rng.randint(1, 4)
             names = rng.sample(NAMES, ncol)
             spec = []
+            empty_float = rng.random() < 0.4
             for n in names:
                 if n in kind_of:
                     kind = rng.choice(PROMOTE[kind_of[n]]) if rng.random() < 0.4 else kind_of[n]
                 else:
                     kind = rng.choice(["int", "float", "bool", "str", "date", "datetime", "obool", "lstr", "ustr", "obj", "timedelta", "datetime_ns", "uint64", "float32"])
                     kind_of[n] = kind
+                if nrow == 0 and empty_float:
+                    kind = "float"        # a frame without rows that was made from empty lists: DataFrame(a=[], b=[]) has float columns
                 spec.append((n, kind, gen.gen_values(rng, kind, nrow, rng.choice(gen.NA_PATTERNS), "few", 0.3, tags)))
             frames.append(spec)
         case["frames"] = frames
